@@ -130,6 +130,13 @@ class SpecGen:
 
     def leaf(self):
         r = self.rng
+        if self.cfg.get("odd_constants") and r.random() < 0.08:
+            # a constant OBJECT whose deepcopy raises something unusual (a multiprocessing lock: RuntimeError, a ctypes pointer:
+            # ValueError): labrea hands it on uncopied
+            return self.add({"k": "val", "v": "§const", "nocopy": r.choice(["RuntimeError", "ValueError", "RecursionError"])}, hashable=True)
+        if self.cfg.get("tuple_constants") and r.random() < 0.1:
+            # a TUPLE constant with a mutable member (copied member by member for every computation)
+            return self.add({"k": "val", "v": [r.choice([0, 1, "a"]) for _ in range(r.randint(0, 2))], "wrap": "tuple"}, hashable=False)
         if r.random() < 0.2:
             v = self.const()
             return self.add({"k": "val", "v": v}, hashable=not isinstance(v, (list, dict)))
@@ -502,7 +509,7 @@ class SpecGen:
             # (a datasetclass instance prints as Name({...}): braces again)
             return False
         if k == "val":
-            return not isinstance(n["v"], dict) and "{" not in repr(n["v"])
+            return not isinstance(n["v"], dict) and "{" not in repr(n["v"]) and not n.get("wrap")
         if k == "opt" and n.get("impl") in ("user", "user_mixin"):
             return False  # (hands templated text through unresolved: braces again)
         if k == "opt" and "{" in repr((n.get("default") or {}).get("v")):
@@ -571,6 +578,7 @@ class SpecGen:
             # (labrea hands every evaluation its own copy of such a value; a default object would be shared)
             by = {n["id"]: n for n in self.nodes}
             m = [a for a, nid in node["args"].items() if by[nid]["k"] == "opt" and by[nid]["key"] in U.WHOLE_KEYS and "default" not in by[nid] and "domain" not in by[nid]]
+            m += [a for a, nid in node["args"].items() if by[nid]["k"] == "val" and by[nid].get("wrap") == "tuple"]
             if m and r.random() < 0.7:
                 node["mutates"] = m
         if cfg["dispatch"] and r.random() < 0.4:
